@@ -19,17 +19,18 @@ import (
 func init() { commands["c10"] = c10Main }
 
 type c10Run struct {
-	rec     *recorder
-	pub     *fpgo.PublisherDef[int] // where Publish is called
-	subPub  *fpgo.PublisherDef[int] // where subscriptions live (the Map-derived publisher when mapped)
-	subs    map[int]*fpgo.Subscription[int]
-	mu      sync.Mutex
-	thr     map[int64]string
-	nsubs   int
-	handler *fpgo.HandlerDef
-	mapped  bool
-	onNext  func(id, v int) // scenario hook, runs inside the callback after logging
-	nilSubs bool
+	rec      *recorder
+	pub      *fpgo.PublisherDef[int] // where Publish is called
+	subPub   *fpgo.PublisherDef[int] // where subscriptions live (the Map-derived publisher when mapped)
+	subs     map[int]*fpgo.Subscription[int]
+	mu       sync.Mutex
+	thr      map[int64]string
+	nsubs    int
+	handler  *fpgo.HandlerDef
+	mapped   bool
+	onNext   func(id, v int) // scenario hook, runs inside the callback after logging
+	nilSubs  bool
+	pubStuck bool
 }
 
 func (r *c10Run) who() string {
@@ -44,7 +45,7 @@ func (r *c10Run) name(n string) { r.mu.Lock(); r.thr[gid()] = n; r.mu.Unlock() }
 
 // every second run also registers subscriptions WITHOUT an OnNext callback (on the origin before Map is derived, and between the
 // ordinary subscribers): they receive nothing and must not keep anybody registered after them from receiving
-var c10Runs int
+var c10Runs, c10MapHandlerRuns, c10Stuck int
 
 func newC10(mapped, useHandler bool) *c10Run {
 	r := &c10Run{rec: &recorder{}, subs: map[int]*fpgo.Subscription[int]{}, thr: map[int64]string{}, mapped: mapped}
@@ -55,14 +56,25 @@ func newC10(mapped, useHandler bool) *c10Run {
 		r.pub.Subscribe(fpgo.Subscription[int]{})
 	}
 	r.subPub = r.pub
-	if mapped {
-		r.subPub = r.pub.Map(func(v int) int { return 2 * v })
-	}
 	if useHandler {
 		r.handler = fpgo.Handler.New()
 		ch := make(chan int64, 1)
 		r.handler.Post(func() { ch <- gid() })
 		r.thr[<-ch] = "h"
+	}
+	// with Map and a handler: every second such run sets SubscribeOn on the ORIGIN before Map is derived (the derived publisher has no
+	// handler of its own: its deliveries happen where the origin's link runs, on h), the others on the derived publisher
+	if mapped && useHandler {
+		c10MapHandlerRuns++
+	}
+	onOrigin := mapped && useHandler && c10MapHandlerRuns%2 == 1
+	if onOrigin {
+		r.pub.SubscribeOn(r.handler)
+	}
+	if mapped {
+		r.subPub = r.pub.Map(func(v int) int { return 2 * v })
+	}
+	if useHandler && !onOrigin {
 		r.subPub.SubscribeOn(r.handler)
 	}
 	r.name("main")
@@ -100,17 +112,34 @@ func (r *c10Run) unsubscribe(id int) {
 }
 func (r *c10Run) publish(k, v int) {
 	r.rec.ev(E{"ev": "pub", "ph": "inv", "id": k, "v": v, "thr": r.who()})
-	r.pub.Publish(v)
+	if r.handler != nil { // with a handler Publish only posts: it must come back (a handler that waits for itself would hold it for ever)
+		done := make(chan struct{})
+		go func() { r.pub.Publish(v); close(done) }()
+		select {
+		case <-done:
+		case <-time.After(1500 * time.Millisecond):
+			r.pubStuck = true
+			return
+		}
+	} else {
+		r.pub.Publish(v)
+	}
 	r.rec.ev(E{"ev": "pub", "ph": "res", "id": k, "v": v, "thr": r.who()})
 }
 func (r *c10Run) finish(w *ndWriter, kind string) {
+	if r.pubStuck {
+		kind = "handler stuck"
+		c10Stuck++
+		r.handler = nil
+	}
 	if r.handler != nil { // everything posted has run once the probe returns
 		ch := make(chan struct{}, 1)
 		go r.handler.Post(func() { ch <- struct{}{} })
 		select {
 		case <-ch:
-		case <-time.After(5 * time.Second):
+		case <-time.After(1500 * time.Millisecond):
 			kind = "handler stuck"
+			c10Stuck++
 		}
 		r.handler.Close()
 	}
@@ -126,6 +155,9 @@ func (r *c10Run) finish(w *ndWriter, kind string) {
 // behaviours of a subscription inside its callback (for the outer value 100 only)
 // 0 noop, 1 unsubscribe itself, 2/3 unsubscribe another one, 4 subscribe a new one, 5 publish a nested value
 func c10Reentrant(w *ndWriter, behav []int, mapped, useHandler bool) {
+	if useHandler && c10Stuck >= 3 { // three runs with a dead handler are reported; more of them only cost time
+		return
+	}
 	r := newC10(mapped, useHandler)
 	n := len(behav)
 	nested := false
@@ -208,6 +240,9 @@ func c10Gated(w *ndWriter, parkAt int, ops []int, mapped bool) {
 }
 
 func c10Stress(w *ndWriter, rng *rand.Rand, pubs, churners int, mapped, useHandler bool) {
+	if useHandler && c10Stuck >= 3 {
+		return
+	}
 	r := newC10(mapped, useHandler)
 	for i := 0; i < 4; i++ {
 		r.subscribe()
